@@ -41,6 +41,7 @@ textual part (destination types `c8 u8 i8` = `char`, `unsigned char`, `signed ch
                             `rc.N` read_chars, `p` peek, `c` clear; at the end `|rest=<unread bytes>`
 * `strconv <hex>`         → `from_std_string(_locale)` and `to_std_string(_locale)` of that text
 * `literals`              → `FCPPT_STRING_LITERAL` / `FCPPT_CHAR_LITERAL` for `char` and `wchar_t`
+* `nwlong <whex pattern> n` → narrow then widen of the pattern repeated n times: lengths, a digest of the bytes, whether it came back
 * `toy D F M C <input>`   → `narrow_locale` (D = `out`, input whex) / `widen_locale` (D = `in`, input hex) with the scripted facet
                             `Model/C15/Toy.lean`: F = flag bits (1 stash, 2 okFull, 4 okLeft, 8 a call without output leaves to_next alone),
                             M = `max_length()`, C = units per call (0 = unlimited)
@@ -509,6 +510,19 @@ def handleUtf (toks : List String) : Option String :=
   | ["nws", lo, n] => do
     let lo ← lo.toNat?; let n ← n.toNat?
     if n = 0 ∨ lo + n > 2 ^ 32 then none else some (nwsDigest lo n)
+  | ["nwlong", pat, n] => do
+    let pat ← parseWhex pat; let n ← n.toNat?
+    if pat.isEmpty ∨ n = 0 ∨ pat.length * n > 200000 then none else
+    let ws := (List.replicate n pat).flatten
+    match narrowLocale ws with
+    | .ok (some bs) =>
+      let w := match widenLocale bs with
+        | .ok (some back) => s!"w=some len={back.length} eq={b01 (back == ws)}"
+        | .ok none => "w=exc"
+        | .error e => "fault:" ++ e.name
+      some s!"n=some len={bs.length} h={hex64 (fnv fnvInit (hexOf bs))} {w}"
+    | .ok none => some "n=none"
+    | .error e => some ("fault:" ++ e.name)
   | ["toy", d, f, m, c, inp] => do
     let wide ← parseDir d; let p ← parseToy f m c
     let inp ← (if wide then parseWhex inp else parseHex inp)
